@@ -115,10 +115,10 @@ def build_cases(ctx: lib.Ctx, prop: str):
         c['stream'] = 'known-class'
         cases.append(c)
     sweep = G.instr_sweep(ctx.rng, ctx.thorough)
-    if not ctx.thorough:   # the quick tier runs a seeded 55% sample of the sweep
-        sweep = [c for c in sweep if c.get('must') or ctx.rng.random() < 0.55]
+    if not ctx.thorough:   # the quick tier runs a seeded 40% sample of the sweep plus the cases marked `must`
+        sweep = [c for c in sweep if c.get('must') or ctx.rng.random() < 0.4]
     cases.extend(sweep)
-    n = ctx.n(700, 14000)
+    n = ctx.n(520, 14000)
     max_size = ctx.n(12, 40)
     for k in range(n):
         strict = ctx.rng.random() < 0.5
@@ -209,7 +209,7 @@ def tc_fail(ctx, cases, bad_t, label='programs'):
 
 def collect_contracts(ctx: lib.Ctx):
     cases, metas = [], []
-    for _ in range(ctx.n(90, 2500)):
+    for _ in range(ctx.n(70, 2500)):
         c = G.gen_contract(ctx.rng, ctx.rng.choice([3, 8, ctx.n(12, 40)]))
         c['stream'] = 'contract'
         old = signal.signal(signal.SIGALRM, _alarm)
@@ -260,7 +260,7 @@ Definition ref_sess_eqb (a b : list (outcome * list value)) : bool :=
 def sessions(ctx: lib.Ctx, prop: str):
     """REPL sessions: (A) py_session, (B) ref_session, per cell outcome + the session stack and `protected` afterwards."""
     cases, metas = [], []
-    for _ in range(ctx.n(110, 2500)):
+    for _ in range(ctx.n(90, 2500)):
         c = G.gen_session(ctx.rng, ctx.rng.choice([3, 6, ctx.n(10, 30)]))
         c['stream'] = 'session'
         old = signal.signal(signal.SIGALRM, _alarm)
